@@ -257,9 +257,12 @@ def triage(binary, pid, violations, seed):
         replay = first["replay"]
         if n < 8 and replay and os.path.exists(replay):
             minp = os.path.join(REPLAYS, "%s-seed%d-%s-min.json" % (pid, seed, sig_id(sig)))
-            m = subprocess.run([binary, "minimise", replay, minp, "--budget", "2000"], env=env,
-                               stdout=subprocess.PIPE, stderr=subprocess.DEVNULL, text=True)
-            cand = minp if (m.returncode == 0 and os.path.exists(minp)) else replay
+            try:
+                m = subprocess.run([binary, "minimise", replay, minp, "--budget", "2000"], env=env,
+                                   stdout=subprocess.PIPE, stderr=subprocess.DEVNULL, text=True, timeout=600)
+                cand = minp if (m.returncode == 0 and os.path.exists(minp)) else replay
+            except subprocess.TimeoutExpired:
+                cand = replay
             r = subprocess.run([binary, "replay", cand], env=env, stdout=subprocess.PIPE,
                                stderr=subprocess.DEVNULL, text=True)
             killed = sig == "process_killed"
